@@ -919,6 +919,75 @@ def gen_libdefault(rng, tables, n_real):
     return cases
 
 
+def recase(rng, name):
+    """the same nickname in another letter case (None when it has no letters)"""
+    for cand in (name.upper(), name.capitalize(), name.swapcase(), name.lower()):
+        if cand != name:
+            return cand
+    return None
+
+
+def gen_casenick(rng, tables, n_real):
+    """nicknames that differ ONLY IN CASE from a section that exists (generated FI database, bundled fi.cfg, the user's own file):
+    section names are case-sensitive, so such a section is somebody else's.  Precedence with decoy sections, and
+    "what --write persisted is what the next run resolves"."""
+    conf = dict(tables["configurable"])
+    cases = []
+    uu = lambda i: ["GEN-UUID-%da" % i, "GEN-UUID-%db" % i]
+    decoy = [("url", "https://decoy.example.com/ofx"), ("version", "160"), ("org", "DECOY"), ("fid", "666"), ("user", "decoy"),
+             ("checking", "666, 667"), ("pretty", "true"), ("bankid", "000000666")]
+    settings = {"url": "https://ofx.example.com/mine", "version": 102, "org": "MINE", "fid": "42", "user": "porky", "checking": ["1", "2"],
+                "savings": ["3"], "bankid": "111000614", "pretty": True}
+    # --- persistence: generated FI database / user file holding the other-case section
+    for nick, other in (("SRV", "srv"), ("Srv", "srv"), ("srv", "SRV"), ("My Bank", "my bank")):
+        for where in ("fi", "user", "both"):
+            fi = base_fi(other, decoy) if where in ("fi", "both") else mk_file([("NAMES", [("1", "x")])])
+            user = mk_file([(other, decoy)]) if where in ("user", "both") else None
+            opts = rng.sample(list(settings), rng.randrange(3, len(settings) + 1))
+            if "url" not in opts:
+                opts.append("url")
+            cli_w = {o: settings[o] for o in opts}
+            cli_w["write"] = True
+            clis = [cli_w, {}, {"write": True}, {}]
+            cases.append({"fi": fi, "user": user, "oh": {}, "runs": [{"argv": argv_of("stmt", nick, c), "uuids": uu(i)} for i, c in enumerate(clis)],
+                          "_cli": clis, "_server": nick, "_kind": "casenick"})
+    # --- persistence: nicknames of the bundled fi.cfg in another case ('Amex' vs [amex])
+    secs = real_sections(tables)
+    names = [n for n in secs if n != "NAMES" and secs[n].isascii() and recase(rng, n) and recase(rng, n) not in secs and "url" in secs[n]]
+    pick = names if n_real is None else rng.sample(names, min(n_real, len(names)))
+    for name in (["amex"] if "amex" in secs else []) + pick:
+        nick = "Amex" if name == "amex" else recase(rng, name)
+        cli_w = {"url": settings["url"], "version": 102, "user": "porky", "checking": ["1", "2"], "write": True}
+        clis = [cli_w, {}]
+        cases.append({"fi": secs[name], "realfi": True, "user": None, "oh": {},
+                      "runs": [{"argv": argv_of("stmt", nick, c), "uuids": uu(i)} for i, c in enumerate(clis)],
+                      "_cli": clis, "_server": nick, "_kind": "casenick"})
+    # --- precedence: the nickname's own sections among decoys in another case, decoys first
+    for nick, other in (("SRV", "srv"), ("Amex", "amex"), ("srv", "Srv")):
+        for mask in range(8):
+            spec, ui, fi_ = {}, [], []
+            for o in ("org", "fid", "version", "user", "checking", "bankid"):
+                ty = conf[o]
+                s = {}
+                if mask & 1 and rng.random() < 0.8:
+                    s["user"] = g_value(rng, o, ty)
+                    ui.append((o, file_text_of(rng, s["user"], plain=True)))
+                if mask & 2 and rng.random() < 0.8:
+                    s["fi"] = g_value(rng, o, ty)
+                    fi_.append((o, file_text_of(rng, s["fi"], plain=True)))
+                spec[o] = s
+            cli = {"dryrun": True}
+            if mask & 4:
+                cli["org"] = "CLIORG"
+            spec["__oh__"] = {}
+            fi_secs = [("NAMES", [("1", "x")]), (other, decoy)] + ([(nick, fi_)] if fi_ else [])
+            user_secs = [(other, [(k, v + "9" if k in ("org", "fid", "user") else v) for k, v in decoy])] + ([(nick, ui)] if ui else [])
+            cases.append({"fi": mk_file(fi_secs), "user": mk_file(user_secs), "oh": {},
+                          "runs": [{"argv": argv_of("stmt", nick, cli), "uuids": uu(0)}],
+                          "_spec": spec, "_cli": [cli], "_server": nick, "_kind": "casenick"})
+    return cases
+
+
 def gen_realfi(rng, tables, n):
     """the bundled fi.cfg: real nicknames, the section text cut out by line (not by configparser) for the model"""
     secs = real_sections(tables)
@@ -976,7 +1045,7 @@ def check_property(case, res, orc, fail):
                 fail("argparse:namespace-differs-from-command-line", "run %d: argv %r gave %r, meant %r" % (i, r["argv"], got, want), dict(rp, run=i))
     # 1. precedence on the first run (the files are as generated)
     spec = case.get("_spec")
-    if spec is not None and kind in ("sweep", "random") and "eff" in runs[0]:
+    if spec is not None and kind in ("sweep", "random", "casenick") and "eff" in runs[0]:
         r, cli = runs[0], clis[0]
         exp = orc.expected_effective(spec, dict(cli, server=server))
         exp_url = exp["url"][0]
@@ -1111,6 +1180,7 @@ def run(rep, tier, rng):
     cases += gen_listq(rng, tables)
     cases += gen_udefault(rng, tables)
     cases += gen_libdefault(rng, tables, None if thorough else 20)
+    cases += gen_casenick(rng, tables, 200 if thorough else 12)
     cases += gen_wild(rng, tables, 3000 if thorough else 300)
     cases += gen_malformed(rng, tables, 3000 if thorough else 300)
     cases += gen_realfi(rng, tables, 400 if thorough else 40)
@@ -1121,7 +1191,7 @@ def run(rep, tier, rng):
     rep.extra["exhaustive_part"] = "source subsets: all 2^5 subsets of {command line, user section, FI db section, OFX Home, user [DEFAULT]} for each of the %d CONFIGURABLE options and 7 command-line-only ones" % len(tables["configurable"])
     rep.rule = ("corpus first; sweep: every option x all 32 subsets of the five places a value can come from, distinct values per place; persist: every CONFIGURABLE option x values of its domain "
                 "(URLs over all URL-legal characters incl. %, account lists of 1..20 ids, integers, flags) written with --write and re-read by a second run; random: 1..5 runs on one file with "
-                "several options from random places; reset / list-quoting / [DEFAULT] probes (known findings); libdefault: nicknames whose FI section (bundled fi.cfg and generated) disagrees with a built-in default, the command line gives the built-in default or the FI value, --write, then a run without it; wild: out-of-domain values and nicknames (DEFAULT, URL as nickname, blanks, quotes, newlines); "
+                "several options from random places; reset / list-quoting / [DEFAULT] probes (known findings); libdefault: nicknames whose FI section (bundled fi.cfg and generated) disagrees with a built-in default, the command line gives the built-in default or the FI value, --write, then a run without it; casenick: nicknames differing only in letter case from a section of the generated / bundled FI database or of the user's file (precedence among decoy sections, and write-then-rerun); wild: out-of-domain values and nicknames (DEFAULT, URL as nickname, blanks, quotes, newlines); "
                 "malformed: damaged user / FI files; realfi: nicknames of the bundled fi.cfg. Each run = fresh module state, real argparse, merge_config, write_config when --write. "
                 "non-trivial = every run of the case produced a merged mapping; distinct by full case content")
 
